@@ -158,10 +158,33 @@ theorem numbers_before_strings (a b : Bytes) (x : Infer.Inferred) (y : Infer.Inf
 /-- -nr reverses -nf. -/
 theorem numeric_desc_is_reverse (a b : Bytes) : cmpOf .numDesc a b = -(cmpOf .numAsc a b) := rfl
 
+/-- Natural order (`-t`/`-tr`): equal texts tie — in particular two EMPTY keys tie, so that later
+keys decide — and an empty key is placed on one fixed side of every non-empty key, in both
+directions consistently. -/
+theorem natural_ties_and_empties (a : Bytes) :
+    cmpNaturalAsc a a = 0 ∧ cmpNaturalAsc [] [] = 0 ∧
+    (a ≠ [] → cmpNaturalAsc [] a = 1 ∧ cmpNaturalAsc a [] = -1) ∧
+    (∀ b, cmpOf .natDesc a b = cmpOf .natAsc b a) := by
+  refine ⟨by simp [cmpNaturalAsc], by decide, ?_, fun _ => rfl⟩
+  intro h
+  cases a with
+  | nil => exact absurd rfl h
+  | cons x xs => constructor <;> simp [cmpNaturalAsc]
+
+/-- With a natural key first, records whose natural keys are equal are ordered by the next key. -/
+theorem natural_then_next_key (k : SortKind) (a x y : Bytes) :
+    multiCmp [.natAsc, k] [a, x] [a, y] = cmpOf k x y ∧ multiCmp [.natDesc, k] [a, x] [a, y] = cmpOf k x y := by
+  have h : cmpNaturalAsc a a = 0 := by simp [cmpNaturalAsc]
+  have h1 : cmpOf .natAsc a a = 0 := h
+  have h2 : cmpOf .natDesc a a = 0 := h
+  generalize hc : cmpOf k x y = c
+  constructor <;> simp only [multiCmp, h1, h2, hc] <;> by_cases hz : c = 0 <;> simp [hz]
+
 /-! Non-vacuity / instances -/
 example : cmpNumeric (str "10") (str "9") = 1 ∧ cmpLexical (str "10") (str "9") = -1 ∧
     cmpNumeric (str "0x10") (str "16.0") = 0 ∧ cmpNumeric (str "5") (str "") = -1 ∧
     cmpNumeric (str "") (str "abc") = -1 := by decide
+example : natLess (str "a9") (str "a10") = true ∧ natLess (str "a10") (str "a9") = false ∧ bytesLt (str "a10") (str "a9") = true := by decide
 example : sortRel [str "a"] [.numAsc]
     [[(str "a", str "10")], [(str "b", str "x")], [(str "a", str "9")], [(str "a", str "10")]]
     [[(str "a", str "9")], [(str "a", str "10")], [(str "a", str "10")], [(str "b", str "x")]] = true := by decide
